@@ -93,7 +93,7 @@ func VerifXMLMixed(n int) {
 // VerifXMLAttr: <a b=QVQ/> with V = n bytes, both quote kinds.
 func VerifXMLAttr(n int) {
 	v := vBytes("v", n)
-	verifInAlphabet(v, "\"'&;#x9amplt3gquos<> \t\nA10")
+	verifInAlphabet(v, "\"'&;#x9amplt3gquos<> \t\nA1068")
 	q := []byte{'"'}
 	if vBool("single") {
 		q[0] = '\''
